@@ -67,6 +67,11 @@ CLAIMS['C17'] = dict(
    text='Decides the order in which durable effects are issued, for all paths: commit object before branch pointer (O1); data objects and vectors durable before the commit that references them (O2); journal entry before HEAD, with HEAD written only by CommitAt and Create (O3); lake magic last and only after the pools store, HEAD before TAIL (O4); pool directory before name with cleanup, name before data on drop (O5); HEAD treated as a hint (H1 — violated on today\'s tree: genuine known finding, reproduced). Does not decide what a reopened lake sees after a torn non-atomic put, i.e. crash states themselves.',
    note='Program order of storage calls equals durability order.',
    ref='DESIGN.md §2 C17')
+CLAIMS['C19'] = dict(
+   technique='error-flow analysis with must-report-before-return on failing branches, must-pass-through on the control-message writer, type-table agreement between server writer, client unmarshaler and client scanner, stub detection behind a shared interface',
+   text='Decides structural conditions of service/direct agreement: (E1) in all 22 HTTP handlers no error result is dropped and, on every branch where an error is non-nil, every path to a return first reports to the client (w.Error, WriteError, the handler\'s handleError closure or an explicit status); (E2) every path through queryio.Writer.WriteControl writes to the response — violated on today\'s tree for responses without control frames (genuine, reproduced, recorded as a known finding); (K1) every api.Query* message the server writes is bound in the client\'s unmarshaler and handled in the client scanner, and QueryError becomes a returned error; (K2) every lake/api.Interface method of the remote implementation issues a request (the RemoveBranch stub was fixed). Does not decide equality of lake state or output between the two access paths.',
+   note='Helpers that take the ResponseWriter report their own errors; deferred cleanup calls are not obligations.',
+   ref='DESIGN.md §2 C19')
 NA = {}
 for i in range(1, 21):
     pid = 'C%02d' % i
